@@ -5,6 +5,7 @@ repository's validation left on: no exception / sys.exit, finite headline >= 0."
 import collections
 import copy
 import math
+import random
 
 from vlib import capture, workload
 
@@ -43,7 +44,11 @@ def gen_cases(tier, seed):
         else:
             # all countries for two presets (rotating with the seed), hostile subset for the rest
             full = {(seed * 2) % len(pres), (seed * 2 + 5) % len(pres)}
-            sel = isos if pi in full else hostile
+            if pi in full:
+                sel = isos
+            else:  # hostile subset + a seeded sample of the other countries, different for every preset
+                rnd = random.Random(seed * 1000 + pi)
+                sel = hostile + rnd.sample([i for i in isos if i not in hostile], 10)
         for iso in sel:
             cases.append({"kind": "pipeline", "iso": iso, "opts": copy.deepcopy(o), "tag": name})
     for n, c in enumerate(cases):
